@@ -572,6 +572,9 @@ class Interp:
     def ev_Attribute(self, node, st):
         v = self.ev(node.value, st)
         if isinstance(v, ArrV):
+            if node.attr == "shape" and getattr(v, "origin", "") == "new" and getattr(v, "rank", 0) is None:
+                sv = ShapeV(v.fab, list(v.dims or []), Num.atom("ncomp(new)"), "array-unknown-rank")
+                return sv
             if node.attr == "shape":
                 dims = list(v.dims or [])
                 return ShapeV(v.fab, dims, v.ncomps() if v.has_comp_axis else None, "array")
@@ -691,12 +694,29 @@ class Interp:
         if comp_sel is None:
             return r
         if not arr.has_comp_axis:
+            if (isinstance(comp_sel, ast.Constant) and comp_sel.value is None) or \
+                    norm(comp_sel) in ("np.newaxis", "numpy.newaxis"):
+                r.has_comp_axis = True
+                r.comps = [arr.scalar_comp or CompSel(arr.fab, "opaque", "scalar", Num(1))]
+                r.scalar_comp = None
+                if getattr(arr, "origin", "") == "new":
+                    r.origin, r.rank = "new", 4
+                return r
             self.g("G2", False, f"component selection on an array without component axis: {norm(node)}", node)
             return Top("no comp axis")
         if isinstance(comp_sel, ast.Slice) and comp_sel.lower is None and comp_sel.upper is None \
                 and comp_sel.step is None:
             return r
-        if isinstance(comp_sel, ast.Constant) and comp_sel.value is None:
+        if (isinstance(comp_sel, ast.Constant) and comp_sel.value is None) or norm(comp_sel) in ("np.newaxis", "numpy.newaxis"):
+            if arr.has_comp_axis:
+                return Top("newaxis on an array that already has a component axis")
+            r.has_comp_axis = True
+            sc = arr.scalar_comp or CompSel(arr.fab, "opaque", "scalar", Num(1))
+            r.comps = [sc]
+            r.scalar_comp = None
+            if getattr(r, "origin", "") == "view" and getattr(arr, "origin", "") == "new":
+                r.origin = "new"
+                r.rank = 4
             return r
         sel = self.ev(comp_sel, st)
         r.comps = self.select_comps(arr, sel, node)
@@ -704,6 +724,9 @@ class Interp:
             r.has_comp_axis = False
             r.scalar_comp = r.comps[0]
             r.comps = None
+        if getattr(arr, "origin", "") == "new":
+            r.origin, r.rank = "new", (3 if not r.has_comp_axis else 4)
+        self.emit(st, "select", node, arr=r, src=arr)
         return r
 
     def sel_kind(self, sel):
@@ -742,6 +765,8 @@ class Interp:
                     return [CompSel(c.fab, "raw", sel, base)]
             if isinstance(sel, Opaque):
                 return [CompSel(c.fab, "opaque", f"{sel.text()} @base {base.text()}")]
+        if c.kind == "opaque" and c.fab == "new" and isinstance(sel, Num) and self.sel_kind(sel) == "list":
+            return [CompSel("new", "list", sel)]
         return [CompSel(c.fab, "opaque", f"sel {sel.text()} of {c.text()}")]
 
     # -- calls ---------------------------------------------------------------------
@@ -788,6 +813,9 @@ class Interp:
                     return recv
                 args = [self.ev(a, st) for a in node.args]
                 if f.attr == "__getattribute__":
+                    nd = self.new_data_rank("__getattribute__")
+                    if nd is not False:
+                        return self.make_new(nd, f"getattr({recv.text()})", node, st, args)
                     return Opaque(f"recipe-attr({recv.text()})", tuple(args))
                 if f.attr in ("replace", "split", "decode", "encode", "format"):
                     return Opaque(f"{recv.text()}.{f.attr}", tuple(args))
@@ -825,6 +853,8 @@ class Interp:
             if isinstance(a, ShapeV):
                 if a.prov == "array":
                     return Num(len(a.dims) + (1 if a.n is not None else 0))
+                if a.prov == "array-unknown-rank":
+                    return Num.atom("rank(new)")
                 return Top("len(shape)")
             if isinstance(a, Opaque):
                 return Opaque(f"len({a.text()})", (a,))
@@ -846,7 +876,45 @@ class Interp:
         for a in args:
             if isinstance(a, Handle):
                 st.hpos[a.hid] = ("top", f"passed to {norm(f)}")
+        nd = self.new_data_rank(norm(f))
+        if nd is not False:
+            return self.make_new(nd, norm(f), node, st, args)
         return Opaque(f"call:{norm(f)}", tuple(args))
+
+    def new_data_rank(self, fname):
+        nd = getattr(self.roles, "new_data", {})
+        if fname in nd:
+            return nd[fname]
+        return False
+
+    def make_new(self, rank, what, node, st, args):
+        """result of a recipe evaluated on the current box: lives on the box grid, `rank` 3 (scalar), 4 (components)
+        or None (unknown until the code tests it)"""
+        fab = getattr(self.roles, "new_data_fab", "")
+        r = ArrV("new")
+        r.dims = [D(fab, i) for i in range(3)]
+        r.order = "n/a"
+        r.origin = "new"
+        r.count = Num.atom("size(new)")
+        r.what = what
+        r.inputs = [a for a in args if isinstance(a, ArrV)]
+        self.set_rank(r, rank)
+        self.emit(st, "new-data", node, arr=r, args=args)
+        return r
+
+    def set_rank(self, r, rank):
+        r.rank = rank
+        if rank == 3:
+            r.has_comp_axis = False
+            r.scalar_comp = CompSel("new", "opaque", "recipe", Num(1))
+            r.comps = None
+        elif rank == 4:
+            r.has_comp_axis = True
+            r.comps = [CompSel("new", "opaque", "recipe", Num.atom("ncomp(new)"))]
+            r.scalar_comp = None
+        else:
+            r.has_comp_axis = False
+            r.scalar_comp = CompSel("new", "opaque", "recipe(rank?)", Num.atom("ncomp?(new)"))
 
     def is_utils(self, f, name):
         if isinstance(f, ast.Name):
@@ -1118,12 +1186,21 @@ class Interp:
                                             f"the component axis", node)
                     else:
                         r.comps.append(x.scalar_comp)
+                        if any(y.has_comp_axis for y in items):
+                            self.g("G2", False, f"np.concatenate(axis={axis}) mixes arrays with a component axis and "
+                                                f"{x.text()[:50]} without one (rank {len(x.dims)}): numpy raises "
+                                                f"ValueError (all arrays must have the same number of dimensions)", node)
                 r.parts = items
                 r.origin = "concat"
                 r.arith = sum((x.arith for x in items), [])
                 r.spatial = items[0].spatial
                 self.emit(st, "concat", node, arrs=items, axis=axis, result=r, flat=False)
                 return r
+        if all(isinstance(x, ArrV) for x in items) and axis in ("3", "-1"):
+            ranks = [len(x.dims or []) + (1 if x.has_comp_axis else 0) for x in items]
+            if len(set(ranks)) > 1:
+                self.g("G2", False, f"np.concatenate(axis={axis}) of arrays of different rank {ranks} "
+                                    f"({[x.text()[:40] for x in items]}): numpy raises ValueError", node)
         # mixture with opaque (recipe output)
         r = ArrV(next((x.fab for x in items if isinstance(x, ArrV)), ""))
         r.dims = next((x.dims for x in items if isinstance(x, ArrV)), None)
@@ -1379,9 +1456,20 @@ class Interp:
         a.conds.append((cond, True, cmps))
         b = st.fork()
         b.conds.append((cond, False, cmps))
+        for (op, l, r, _n) in cmps:
+            if op == "Lt" and isinstance(l, Num) and l.text() == "rank(new)" and isinstance(r, Num) and r.r == Ratio(4):
+                self.refine_rank(a, 3)
+                self.refine_rank(b, 4)
         outs = self.block(s.body, [a])
         outs += self.block(s.orelse, [b]) if s.orelse else [b]
         return outs
+
+    def refine_rank(self, st, rank):
+        for k, v in list(st.env.items()):
+            if isinstance(v, ArrV) and getattr(v, "origin", "") == "new" and getattr(v, "rank", 0) is None:
+                r = copy.copy(v)
+                self.set_rank(r, rank)
+                st.env[k] = r
 
     def st_Try(self, s, st):
         outs = self.block(s.body, [st.fork()])
